@@ -182,10 +182,17 @@ def run_as(c, o):
         fsd["n_point_masses"] = 2 * npm
         mir = [[p[0], -p[1], p[2]] for p in c["pm_loc"]]
         caseF.update(point_masses=c["pm"] + c["pm"], point_mass_locations=c["pm_loc"] + mir, engine_thrusts=c["thrust"] + c["thrust"])
+    if sd["fem_model_type"] == "wingbox":
+        caseH["fuel_vol_delta"] = True
+        caseF["fuel_vol_delta"] = True
     H = zoo.build_as(caseH)
     zoo.run(H)
     F = zoo.build_as(caseF)
     zoo.run(F)
+    # the repository's own mirroring helper must produce the full mesh used for the twin
+    from openaerostruct.geometry.utils import getFullMesh
+
+    o.close("as/getFullMesh", getFullMesh(left_mesh=m.copy()), full, rtol=1e-14)
     nyh = m.shape[1]
     fem = sd["fem_model_type"]
     tags = [fem, "symmetry"] + (["with_wave"] if sd["with_wave"] else []) + (["fuel"] if sd["distributed_fuel_weight"] else []) + (["relief"] if sd["struct_weight_relief"] else []) + ["npm=%d" % npm]
@@ -224,6 +231,11 @@ def run_as(c, o):
         o.close("as/failure_ks_relation", np.ravel(fff)[0], np.ravel(fhh)[0] + np.log(2.0) / 100.0, rtol=0, atol=1e-7, tags=["ks_full_span"])
     if fem == "wingbox":
         o.close("as/fuel_vols", zoo.get(H, "wing.struct_setup.fuel_vols"), zoo.get(F, "wing.struct_setup.fuel_vols")[: nyh - 1], rtol=1e-11)
+        # fuel-volume margin: enclosed volume minus required fuel volume of the whole aircraft
+        vh = float(np.ravel(zoo.get(H, "wing_fuel_vol_delta.fuel_vol_delta"))[0])
+        vf = float(np.ravel(zoo.get(F, "wing_fuel_vol_delta.fuel_vol_delta"))[0])
+        o.close("as/fuel_vol_delta", vh, vf, rtol=R, atol=1e-9, tags=["fuel_vol_delta"] + (["depends_on_CDw"] if wave and (wh > 0 or wf > 0) else []),
+                what="fuel_vol_delta half %.8g full %.8g" % (vh, vf), ratio=(vh / vf if vf else None))
     o.nontrivial = bool(np.abs(fh).max() > 0 and np.abs(dh).max() > 0)
 
 
